@@ -14,6 +14,23 @@ leaves with `omega` bounds, takes loop lemmas / induction hypotheses after `usin
 -/
 namespace SafeC
 
+/-! ### monad laws used by the walk to expose the next primitive step -/
+
+theorem Prog.bind_assoc' {α β γ} (p : Prog α) (f : α → Prog β) (g : β → Prog γ) :
+    (p >>= f) >>= g = p >>= fun x => f x >>= g := by
+  show (p.bind f).bind g = p.bind (fun x => (f x).bind g)
+  induction p with
+  | ret x => rfl
+  | load a k ih => simp only [Prog.bind]; congr 1; funext v; exact ih v
+  | store a v k ih => simp only [Prog.bind]; congr 1
+  | emit e k ih => simp only [Prog.bind]; congr 1
+
+theorem Prog.pure_bind' {α β} (x : α) (f : α → Prog β) : (Pure.pure x : Prog α) >>= f = f x := rfl
+
+theorem Prog.ite_bind' {α β} (c : Prop) [Decidable c] (a b : Prog α) (f : α → Prog β) :
+    (if c then a else b) >>= f = if c then a >>= f else b >>= f := by
+  split <;> rfl
+
 def SW (lo hi : Nat) {α : Type} (p : Prog α) (Q : α → Prop) : Prop :=
   ∀ st : St, (∀ a, st.mapped a = true ∧ st.rd a = true) → (∀ a, lo ≤ a → a < hi → st.wr a = true) →
     ∃ r st', exec p st = .ok (r, st') ∧ Q r ∧ st'.mapped = st.mapped ∧ st'.wr = st.wr ∧ st'.rd = st.rd ∧
@@ -125,7 +142,7 @@ attribute [irreducible] SW
 macro "sw_arith" : tactic => `(tactic| first
   | omega
   | (dsimp only at * <;> omega)
-  | (simp only [Prod.mk.injEq, Sum.inr.injEq, Sum.inl.injEq, reduceCtorEq, false_and, and_false, false_implies,
+  | (simp only [Prod.mk.injEq, Sum.inr.injEq, Sum.inl.injEq, reduceCtorEq, false_and, and_false, false_or, or_false, false_implies,
        forall_const, ne_eq, not_false_eq_true, not_true_eq_false, gt_iff_lt, ge_iff_le, decide_eq_true_eq,
        Bool.and_eq_true, Bool.or_eq_true, Bool.not_eq_true, decide_eq_false_iff_not] at * <;> omega))
 
@@ -148,8 +165,13 @@ macro "sw_step" : tactic => `(tactic| first
   | (refine SW.nullSlack _ _ ?_; sw_arith)
   | (refine SW.handleError _ _ _ _ ?_ ?_ ?_ <;> sw_arith)
   | assumption
+  | rw [Prog.bind_assoc']
+  | rw [Prog.pure_bind']
+  | rw [Prog.ite_bind']
   | apply SW.bind
   | intro _
+  | simp only [eq_self, ite_true, ite_false, if_true, if_false, reduceCtorEq, Bool.false_eq_true, Bool.true_eq_false,
+      decide_eq_true_eq]
   | split
   | dsimp only
   | sw_arith)
